@@ -1,10 +1,19 @@
 package main
 
 import (
+	"bytes"
 	"encoding/json"
 	"fmt"
+	gotoken "go/token"
 	"math"
+	"os"
+	"path/filepath"
 	"sort"
+
+	loxast "github.com/dcaiafa/lox/internal/ast"
+	"github.com/dcaiafa/lox/internal/base/errlogger"
+	loxparser "github.com/dcaiafa/lox/internal/parser"
+	"github.com/dcaiafa/lox/verif/internal/fromast"
 
 	"github.com/dcaiafa/lox/internal/lexergen/dfa"
 	"github.com/dcaiafa/lox/internal/lexergen/mode"
@@ -296,6 +305,7 @@ func c10Worker(c *mc.Ctx) {
 			}
 		}
 	}
+	c10Real(c, ws, "C10")
 	// Parser side: decoded arrays equal the automaton object exactly.
 	pf := []family{
 		{Name: "plain", Space: gen.NewSpace(2, 2, 2, 2, false)},
@@ -373,4 +383,99 @@ func init() {
 		Worker: c10Worker,
 		Replay: c10Replay,
 	})
+}
+
+// ---------------------------------------------------------------------------
+// Real-world specifications: lox's own parser.lox and the bundled examples.
+// Their syntax trees are taken from lox's front-end parser and translated to
+// the harness's model (internal/fromast); the meaning is the harness's.
+
+type realSpec struct {
+	name  string
+	files map[string]string
+	spec  *lexref.Spec
+}
+
+func realSpecs() ([]realSpec, []string) {
+	var out []realSpec
+	var problems []string
+	for _, d := range []string{"internal/parser", "examples/calc", "examples/jsonc", "examples/bolox"} {
+		m, _ := filepath.Glob("/repo/" + d + "/*.lox")
+		sort.Strings(m)
+		files := map[string]string{}
+		var units []*loxast.Unit
+		fset := gotoken.NewFileSet()
+		ok := true
+		for _, f := range m {
+			data, err := os.ReadFile(f)
+			if err != nil {
+				ok = false
+				continue
+			}
+			files[filepath.Base(f)] = string(data)
+			var diag bytes.Buffer
+			errs := errlogger.New(fset, &diag)
+			u := loxparser.Parse(fset.AddFile(f, -1, len(data)), data, errs)
+			if errs.HasError() || u == nil {
+				problems = append(problems, d+": "+firstLine(diag.String()))
+				ok = false
+				continue
+			}
+			units = append(units, u)
+		}
+		if !ok || len(units) == 0 {
+			continue
+		}
+		s, err := fromast.Spec(units)
+		if err != nil {
+			problems = append(problems, d+": "+err.Error())
+			continue
+		}
+		out = append(out, realSpec{name: d, files: files, spec: s})
+	}
+	return out, problems
+}
+
+// c10Real runs the table checks and the product search on the real-world
+// specifications (C08's semantics: they contain non-greedy rules).
+func c10Real(c *mc.Ctx, ws *pipe.Workspace, property string) {
+	specs, problems := realSpecs()
+	for _, p := range problems {
+		c.Stats.HarnessError("real-world specification: %s", p)
+	}
+	for i, rs := range specs {
+		if !c.Mine(int64(i)) {
+			continue
+		}
+		b := lx.BuildText(ws, rs.files, rs.spec)
+		if b.Status != lx.Accepted {
+			c.Stats.HarnessError("real-world specification %s: %s %s %s", rs.name, b.Status, b.Problem, firstLine(b.Res.Diag))
+			continue
+		}
+		c.Stats.Evaluations++
+		c.Stats.Validated++
+		c.Stats.Nontrivial++
+		if prob := checkLexTables(b); prob != "" {
+			c.Stats.Violate(mc.Violation{Property: "C10", Check: property, Kind: "lexer-table-real", Size: i, Case: mustJSON(map[string]any{"real": rs.name}), Detail: rs.name + ": " + prob})
+		}
+		pr := lx.Product(b, px.NB, lx.ProductOpts{MaxDepth: 3, StopAtError: true, CompareEvents: true, NGStop: ngStop, IsNG: ruleIsNG, MaxStates: 400000})
+		c.Stats.States += int64(pr.States)
+		c.Stats.Transitions += int64(pr.Transitions)
+		c.Stats.Add("real_world_product_states", int64(pr.States))
+		c.Stats.Add("ambiguous_decisions_followed", int64(pr.Ambiguous))
+		if pr.StateCapped {
+			c.Stats.Cap(rs.name + ": product state cap reached")
+		}
+		c.Stats.Sample(map[string]any{"real_world_spec": rs.name, "modes": len(rs.spec.Modes), "product_states": pr.States, "product_transitions": pr.Transitions, "atoms": len(b.C.Atoms)})
+		for _, mm := range pr.Mismatches {
+			c.Stats.Violate(mc.Violation{Property: property, Check: property, Kind: "real-product-" + mm.Kind, Size: len(mm.Path), Case: mustJSON(map[string]any{"real": rs.name, "path": mm.Path}),
+				Detail: fmt.Sprintf("%s after pushing %s: %s", rs.name, mm.PathText(), mm.Detail)})
+		}
+		gr := lx.ImplGraph(b, px.NB, 3)
+		c.Stats.Add("real_world_configurations", int64(gr.States))
+		for _, mm := range gr.Mismatches {
+			c.Stats.Violate(mc.Violation{Property: "C11", Check: property, Kind: "real-graph-" + mm.Kind, Size: len(mm.Path), Case: mustJSON(map[string]any{"real": rs.name, "path": mm.Path}),
+				Detail: fmt.Sprintf("%s after pushing %s: %s", rs.name, mm.PathText(), mm.Detail)})
+		}
+	}
 }
